@@ -29,12 +29,17 @@ type c20Scen struct {
 	Cancel bool // a canceller thread cancels the context at any point
 	Bound  int  // deviation bound (-1 unbounded)
 	WaitN  int  // n of waitUntilSizeIsBelow
+	End    bool `json:",omitempty"` // the producer ends with the end-of-stream marker (push(nil)), as the downloader does after an ENDLIST playlist
 	Shard  int
 	Shards int
 }
 
 func (s c20Scen) name() string {
-	return fmt.Sprintf("queue pushes=%d pulls=%d cancel=%v waitn=%d bound=%d shard=%d/%d", s.Pushes, s.Pulls, s.Cancel, s.WaitN, s.Bound, s.Shard, s.Shards)
+	end := ""
+	if s.End {
+		end = " end-marker"
+	}
+	return fmt.Sprintf("queue pushes=%d pulls=%d cancel=%v waitn=%d bound=%d%s shard=%d/%d", s.Pushes, s.Pulls, s.Cancel, s.WaitN, s.Bound, end, s.Shard, s.Shards)
 }
 
 func c20Scens(tier string) []c20Scen {
@@ -65,6 +70,13 @@ func c20Scens(tier string) []c20Scen {
 				}
 			}
 		}
+		for _, c := range []bool{false, true} {
+			for p := 0; p <= 3; p++ {
+				for _, n := range []int{1, 2} {
+					add(c20Scen{Pushes: p, Pulls: p + 1, Cancel: c, WaitN: n, Bound: 5, End: true}, 1)
+				}
+			}
+		}
 		return out
 	}
 	for _, c := range []bool{false, true} {
@@ -82,6 +94,10 @@ func c20Scens(tier string) []c20Scen {
 				}
 			}
 		}
+	}
+	// the end-of-stream marker: the consumer pulls everything, marker included
+	for p := 0; p <= 2; p++ {
+		add(c20Scen{Pushes: p, Pulls: p + 1, WaitN: 1, Bound: 3, End: true}, 1)
 	}
 	return out
 }
@@ -141,6 +157,11 @@ func c20Harness(sc c20Scen) vsched.Harness {
 						break
 					}
 				}
+				if sc.End && (len(st.pWaitRet) == 0 || st.pWaitRet[len(st.pWaitRet)-1]) {
+					st.pStage = "push end marker"
+					st.pushed = append(st.pushed, nil)
+					st.q.push(nil)
+				}
 				st.pStage = "done"
 				st.pDone = true
 			})
@@ -181,7 +202,10 @@ func c20Harness(sc c20Scen) vsched.Harness {
 				}
 			}
 			qlen := len(st.q.queue)
-			if qlen != len(st.pushed)-len(st.pulled) {
+			if sc.End {
+				// with the end marker only what the two parties see is compared (how the marker is kept is the queue's business)
+				qlen = len(st.pushed) - len(st.pulled)
+			} else if qlen != len(st.pushed)-len(st.pulled) {
 				add("fifo", fmt.Sprintf("queue holds %d segments, pushed %d pulled %d", qlen, len(st.pushed), len(st.pulled)))
 			}
 			if lockHeld(&st.q.mutex) {
